@@ -794,3 +794,29 @@ def big_plate_cases(seed):
             pl = op['out']
         out.append(g)
     return out
+
+
+def huge_ratio_cases(seed):
+    """directed: a request that is a vanishing share of a very large source (2.5 nL out of 100 L, a microgram out of 50 kg, a
+    nanomole out of a litre of buffer, one unit out of 5e10): it moves exactly that, however small the ratio"""
+    import random
+    q = lambda v, p, b: {'v': v, 'p': p, 'b': b}
+    out = []
+    plans = [([(1, q('100', '', 'L')), (4, q('900', '', 'g'))], q('2.5', 'n', 'L')),
+             ([(4, q('50', 'k', 'g'))], q('1', 'u', 'g')),
+             ([(1, q('1', '', 'L')), (4, q('5.844', '', 'g'))], q('1', 'n', 'mol')),
+             ([(1, q('1', '', 'L')), (6, q('50000', 'M', 'U'))], q('1', '', 'U'))]
+    for i, (init, req) in enumerate(plans):
+        g = Gen(random.Random(seed * 1009 + i), nsubs=9)
+        op = {'op': 'newc', 'out': g.fresh(), 'name': g.name(), 'init': [[k, v] for k, v in init]}
+        if not g.emit(op, 'huge:source')['ok']:
+            continue
+        src = op['out']
+        d = g.fresh()
+        g.emit({'op': 'newc', 'out': d, 'name': g.name(), 'init': []}, 'huge:tube')
+        for _ in range(3):      # repeated: the same small request again and again
+            op = {'op': 'transfer', 'src': {'c': src}, 'dst': {'c': d}, 'q': req, 'osrc': g.fresh(), 'odst': g.fresh()}
+            if g.emit(op, 'huge:tiny-request')['ok']:
+                src, d = op['osrc'], op['odst']
+        out.append(g)
+    return out
